@@ -37,6 +37,18 @@ class CiphertextFileNode:
         self._download_status = None
         self._node = None # created lazily, on read()
 
+    def __hash__(self):
+        return hash((self.__class__, self._verifycap))
+
+    def __eq__(self, other):
+        if isinstance(other, CiphertextFileNode):
+            return self._verifycap == other._verifycap
+        else:
+            return False
+
+    def __ne__(self, other):
+        return not (self == other)
+
     def _maybe_create_download_node(self):
         if not self._download_status:
             ds = DownloadStatus(self._verifycap.storage_index,
